@@ -626,6 +626,11 @@ def filter_args(rng, present, width):
     else:
         pool = USERS + ROLES + OBJS + ACTS + DOMS
         vals = [rng.choice(pool) if rng.random() < 0.7 else "" for _ in range(n)]
+    u = rng.random()
+    if u < 0.06:
+        return idx, []                        # no field value at all: the degenerate filter
+    if u < 0.12:
+        return idx, [""] * n                  # blanks only
     if all(v == "" for v in vals):
         vals[0] = rng.choice(USERS + ROLES)
     return idx, vals
